@@ -792,6 +792,41 @@ fn decompositions(c: &mut Case) {
     }
 }
 
+/// A model whose fit is randomised but whose `predict` is generic over the matrix type: one k-means model,
+/// fitted once on the built-in matrix, has to label the same query rows identically whichever backend (and memory
+/// layout) holds them.
+fn shared_model_predict(c: &mut Case) {
+    use smartcore::cluster::kmeans::{KMeans, KMeansParameters};
+    let n = c.rng.us(8, 40);
+    let p = c.rng.us(1, 5);
+    let nq = c.rng.us(1, 12);
+    let x = Mat::from_fn(n, p, |_, _| c.rng.normal() * 3.0);
+    let xq = Mat::from_fn(nq, p, |i, j| x.at(i % n, j) + c.rng.normal());
+    let layout = c.rng.below(LAYOUTS.len());
+    let kind = "kmeans";
+    c.describe(json!({"shared-model": kind, "x": mat_json(&x), "xq": mat_json(&xq), "ndarray_layout": LAYOUTS[layout]}));
+    c.bucket(&format!("shared-model:{}", kind));
+    c.bucket(&format!("ndarray-layout:xq={}", LAYOUTS[layout]));
+    let xd: DenseMatrix<f64> = to_m(&x);
+    let qd: DenseMatrix<f64> = to_m(&xq);
+    let qn: Array2<f64> = to_m::<f64, Array2<f64>>(&xq).relayout(layout);
+    let qa: DMatrix<f64> = to_m(&xq);
+    let outs: Option<[Result<Vec<f64>, String>; 3]> = if kind == "kmeans" {
+        let k = c.rng.us(2, 4.min(n / 2).max(2));
+        match c.must("KMeans::fit", || KMeans::fit(&xd, KMeansParameters::default().with_k(k))) {
+            Some(Ok(m)) => c.must("KMeans::predict on three backends", || [m.predict(&qd).map_err(e2s), m.predict(&qn).map(|v| v.to_vec()).map_err(e2s), m.predict(&qa).map(|v| outv(&v)).map_err(e2s)]),
+            _ => None,
+        }
+    } else {
+        None
+    };
+    if let Some([Ok(d), Ok(nd), Ok(na)]) = outs {
+        c.nontrivial();
+        c.check(&format!("ndarray:same-output:{}-predict", kind), d == nd, kind, || format!("dense {:?}, ndarray ({}) {:?}", d, LAYOUTS[layout], nd));
+        c.check(&format!("nalgebra:same-output:{}-predict", kind), d == na, kind, || format!("dense {:?}, nalgebra {:?}", d, na));
+    }
+}
+
 fn main() {
     runner::main(Spec {
         property: "C20",
@@ -805,6 +840,7 @@ fn main() {
             Family::new("program_small", 10000, 150000, program_small),
             Family::new("decompositions", 3000, 60000, decompositions),
             Family::new("estimators", 2600, 52000, estimators),
+            Family::new("shared_model_predict", 1500, 30000, shared_model_predict),
         ],
         min_nontrivial: 4000,
         case_timeout_s: 120,
